@@ -81,8 +81,10 @@ def cut_is_safe(ctx, body, bb):
         per_alt = []
         for a in al:
             a = strip(a)
-            if a[0] == "const":
-                per_alt.append("const")
+            if a[0] == "const" and a[1] == 0:
+                # offset 0 is a boundary of every string; any other constant is not (it can fall inside a multi-byte character,
+                # or beyond the end)
+                per_alt.append("const 0")
                 continue
             # len() of the same string, or of a boundary-safe prefix of it
             if a[0] == "call" and a[1] in ("core::str::len", "std::string::String::len"):
@@ -121,7 +123,7 @@ def cut_is_safe(ctx, body, bb):
         if good_gates and g:
             reasons.append("is_char_boundary guard")
             continue
-        return False, "index %s is not a constant, a len(), nor guarded by is_char_boundary on the same string" % show(ie, 2)
+        return False, "index %s is not 0, a len(), nor guarded by is_char_boundary on the same string" % show(ie, 2)
     return True, "; ".join(reasons)
 
 
